@@ -14,6 +14,14 @@ Clauses (ids):
   C18.dither.moments      mean 0 and standard deviation coeff within 4.5 standard errors on 1e5 samples
   C18.dither.dtype_values result dtype = input dtype, value = cast(x64 + noise)
   C18.dither.input_untouched / C18.dither.in_place   as for pre-emphasis
+
+"for all signal lengths (0, 1, ...)": besides the short signals, every clause is also run on signals LONGER THAN ANY
+PLAUSIBLE INTERNAL BLOCK of an implementation that works piecewise (2^16 + 2, 2^17 + 3 and 300007 samples, for every
+dtype and in_place setting; 2^k + small and exact powers of two from 2^10 to 2^18 for two dtypes), right after the
+tiny explicit signals.  They are compared SAMPLE BY SAMPLE with the same oracle (the recurrence uses the OLD x[i-1]
+at every i, so a single sample computed from an already overwritten predecessor - one in 65536 - is a violation);
+the message lists the first wrong indices so that a regular spacing is visible.  For the dither, "adds noise" is read
+per sample: the noise read off a zero signal is non-zero at every sample (an exact 0.0 has probability zero).
 """
 import warnings
 
@@ -60,13 +68,19 @@ def _layout(x, layout):
     raise ValueError(layout)
 
 
+LONG_FULL = [(1 << 16) + 2, (1 << 17) + 3, 300007]  # every dtype x in_place x layout
+LONG_EXTRA = [(1 << 10) + 3, (1 << 12) + 3, (1 << 14) + 2, 1 << 16, (1 << 16) + 1, 1 << 18]  # two dtypes
+
+
 def _oracle_preemph(x, coeff):
-    x64 = [float(v) for v in x]
-    out = np.empty(len(x), dtype=np.float64)
-    for i in range(len(x)):
+    """y[0] = x[0], y[i] = x[i] - coeff*x[i-1], one sample at a time in Python floats (= float64), every x[i-1]
+    taken from the untouched input list."""
+    x64 = [float(v) for v in x.astype(np.float64).tolist()]  # exact widening; the arithmetic below is the oracle
+    out = [0.0] * len(x64)
+    for i in range(len(x64)):
         out[i] = x64[i] if i == 0 else x64[i] - coeff * x64[i - 1]
     with np.errstate(all="ignore"):
-        return out.astype(x.dtype)
+        return np.array(out, dtype=np.float64).astype(x.dtype)
 
 
 def _bits(a):
@@ -103,13 +117,16 @@ def _check_preemph(case):
         return fails, len(x) >= 2, stats
     clause = "C18.preemph.in_place" if in_place else "C18.preemph.values"
     if x.dtype.kind == "i":
-        ok = np.array_equal(got, want)
+        bad = got != want
     else:
-        ok = np.allclose(got, want, rtol=RTOL, atol=0.0)
+        bad = ~np.isclose(got, want, rtol=RTOL, atol=0.0)
+    ok = not bool(np.any(bad))
     stats["bit_equal"] = bool(_bits(got) == _bits(want))
     if not ok:
-        i = int(np.flatnonzero(got != want)[0])
-        fails.append((clause, case, f"y[{i}] = {got[i]!r}, expected {want[i]!r} (x[{i}]={x[i]!r}, x[{i-1}]={x[i-1] if i else None!r}, coeff={coeff})"))
+        idx = np.flatnonzero(bad)
+        i = int(idx[0])
+        where = f"{len(idx)} of {len(x)} samples wrong, first wrong indices {[int(v) for v in idx[:4]]}; " if len(x) > 8 else ""
+        fails.append((clause, case, f"{where}y[{i}] = {got[i]!r}, expected x[{i}] - coeff*x[{i-1}] = {want[i]!r} (x[{i}]={x[i]!r}, x[{i-1}]={x[i-1] if i else None!r}, coeff={coeff}, signal length {len(x)}, {x.dtype}, in_place={in_place})"))
     if not in_place:
         if _bits(base) != _bits(base_before):
             fails.append(("C18.preemph.input_untouched", case, "input array modified with in_place=False"))
@@ -163,6 +180,12 @@ def _check_dither(case):
             fails.append(("C18.dither.moments", case, f"sample mean {m:.6g} is {abs(m)/se_m:.2f} standard errors from 0"))
         if not abs(s - coeff) <= N_SE * se_s:
             fails.append(("C18.dither.moments", case, f"sample std {s:.6g} is {abs(s-coeff)/se_s:.2f} standard errors from coeff {coeff}"))
+        if case.get("signal", "zeros") == "zeros" and coeff > 0:
+            # "Dither.apply adds noise ... [with] standard deviation coeff": to every sample; on a zero signal the
+            # noise is read off exactly and a sample of a continuous N(0, coeff^2) is 0.0 with probability zero
+            zero = np.flatnonzero(noise == 0.0)
+            if len(zero):
+                fails.append(("C18.dither.moments", case, f"{len(zero)} of {n} samples received no noise at all (first indices {[int(v) for v in zero[:4]]}, signal length {n})"))
         return fails, True, stats
 
     x = _signal(case)
@@ -231,8 +254,9 @@ def _check_dither(case):
         else:
             ok = np.allclose(out, want, rtol=RTOL, atol=RTOL * coeff)
         if not ok:
-            i = int(np.flatnonzero(out != want)[0])
-            fails.append(("C18.dither.in_place" if in_place else "C18.dither.dtype_values", case, f"out[{i}] = {out[i]!r}, expected cast(x + noise) = {want[i]!r}"))
+            idx = np.flatnonzero(out != want if x.dtype.kind == "i" else ~np.isclose(out, want, rtol=RTOL, atol=RTOL * coeff))
+            i = int(idx[0])
+            fails.append(("C18.dither.in_place" if in_place else "C18.dither.dtype_values", case, f"out[{i}] = {out[i]!r}, expected cast(x + noise) = {want[i]!r} ({len(idx)} of {n} samples wrong, first indices {[int(v) for v in idx[:4]]})"))
         if not in_place:
             if _bits(base) != _bits(base_before):
                 fails.append(("C18.dither.input_untouched", case, "input array modified with in_place=False"))
@@ -267,6 +291,24 @@ def _enumerate(tier, seed):
     for dt in DTYPES:
         for in_place in (False, True):
             cases.append({"check": "preemph", "dtype": dt, "n": 4, "x": [1000, 2000, -3000, 500], "coeff": 0.97, "in_place": in_place, "layout": "contig"})
+    # "for all signal lengths": signals longer than any plausible internal block size, every dtype / in_place / layout
+    rng_np = _common.make_rng(seed, "c18:npseeds-long")
+    for n in LONG_FULL:
+        for dt in DTYPES:
+            for in_place, layout in ((False, "contig"), (True, "contig"), (True, "strided"), (False, "readonly"), (None, "contig")):
+                cases.append({"check": "preemph", "dtype": dt, "n": n, "seed": seed, "salt": f"pL{dt}{n}", "coeff": 0.97 if layout != "readonly" else -0.5, "in_place": in_place, "layout": layout})
+            for in_place, layout in ((False, "contig"), (True, "contig"), (True, "strided")):
+                cases.append({"check": "dither.dtype_values", "dtype": dt, "n": n, "seed": seed, "salt": f"dvL{dt}{n}", "coeff": 20.0, "np_seed": int(rng_np.integers(0, 2**31 - 2)), "in_place": in_place, "layout": layout})
+            cases.append({"check": "dither.identity0", "dtype": dt, "n": n, "seed": seed, "salt": f"d0L{dt}{n}", "np_seed": int(rng_np.integers(0, 2**31 - 2)), "in_place": True, "layout": "contig"})
+        cases.append({"check": "dither.independent", "dtype": "float64", "n": n, "seed": seed, "salt": f"diL{n}", "coeff": 2.0, "np_seed": int(rng_np.integers(0, 2**31 - 2))})
+        cases.append({"check": "dither.linear", "dtype": "float64", "n": n, "seed": seed, "salt": f"dlL{n}", "coeffs": [0.5, 10.0], "np_seed": int(rng_np.integers(0, 2**31 - 2))})
+        cases.append({"check": "dither.reproducible", "dtype": "float32", "n": n, "seed": seed, "salt": f"drL{n}", "coeff": 3.0, "np_seed": int(rng_np.integers(0, 2**31 - 2))})
+        for coeff in (1.0, 30.0):
+            cases.append({"check": "dither.moments", "n": n, "coeff": coeff, "np_seed": int(rng_np.integers(0, 2**31 - 2)), "signal": "zeros", "seed": seed, "salt": f"dmL{n}"})
+    for n in LONG_EXTRA:
+        for dt in ("float64", "int16"):
+            for in_place in (False, True):
+                cases.append({"check": "preemph", "dtype": dt, "n": n, "seed": seed, "salt": f"pX{dt}{n}", "coeff": 0.97, "in_place": in_place, "layout": "contig"})
     for dt in DTYPES:
         for n in lengths:
             for ci, coeff in enumerate(coeffs):
@@ -317,7 +359,7 @@ def run(tier: str, seed: int) -> dict:
             fails, nontrivial, stats = _check_case(case)
         except Exception as e:  # noqa
             fails, nontrivial, stats = [("C18.exception", case, f"{type(e).__name__}: {e}")], False, {}
-        col.case(case, nontrivial=nontrivial, sample=case if (case.get("n") in (3, 5) and case.get("layout") in (None, "strided")) else None)
+        col.case(case, nontrivial=nontrivial, sample=case if (case.get("n") in (3, 5) and case.get("layout") in (None, "strided")) or (case.get("n") == LONG_FULL[0] and case.get("layout") == "strided" and case.get("dtype") == "int16") else None)
         if "bit_equal" in stats and case["dtype"].startswith("float"):
             n_float += 1
             n_biteq += int(stats["bit_equal"])
@@ -329,7 +371,7 @@ def run(tier: str, seed: int) -> dict:
     col.note(f"dither: largest |z| over the moment tests = {zmax:.2f} standard errors (limit {N_SE}); worst relative deviation of noise(c)/c from noise(1) = {lin_worst:.2e}")
     return col.result(
         rule="one case = (transform, dtype, length, coeff, in_place / default, memory layout contiguous|read-only|strided view) or one dither clause instance (numpy seed, length, coeff); non-trivial when the signal has >= 2 samples (pre-emphasis) / >= 1 sample and non-zero noise (dither)",
-        bound="BOUNDED: 1-D signals of lengths 0..5 and 1000 (thorough: + 400 random lengths < 300), dtypes f32/f64/i16/i32, |x| <= 8000 (ints) / ~N(0,100^2) (floats), coefficients {0.97,1,-0.5,0,0.9375,0.1} (+ random in [-1.5,1.5]); dither moments on 1e5 samples for 5 (quick) / 40 (thorough) numpy seeds x 3 coeffs at 4.5 standard errors (statistical)",
+        bound="BOUNDED: 1-D signals of lengths 0..5 and 1000 (thorough: + 400 random lengths < 300) and, for both transforms, every dtype, in_place False/True/default and contiguous/strided/read-only layouts, the long lengths 2^16+2, 2^17+3 and 300007 (pre-emphasis also 2^10+3, 2^12+3, 2^14+2, 2^16, 2^16+1, 2^18 for float64/int16) compared sample by sample, dtypes f32/f64/i16/i32, |x| <= 8000 (ints) / ~N(0,100^2) (floats), coefficients {0.97,1,-0.5,0,0.9375,0.1} (+ random in [-1.5,1.5]); dither moments on 1e5 samples for 5 (quick) / 40 (thorough) numpy seeds x 3 coeffs at 4.5 standard errors (statistical)",
         assumptions=ASSUMPTIONS,
     )
 
